@@ -236,8 +236,15 @@ func genScenario(r *hx.Rand) Scenario {
 		sc.Ops = append(sc.Ops, Op{Kind: 'R'})
 		sc.Tags = append(sc.Tags, "residue")
 	}
-	for _, res := range results {
+	nq := 0
+	for i, res := range results {
 		sc.Ops = append(sc.Ops, Op{Kind: 'A', Res: res})
+		// a query in the middle of the stream (all observables of all projections as they are now)
+		if nq < 2 && i+1 < len(results) && r.Chance(1, 4) {
+			sc.Ops = append(sc.Ops, Op{Kind: 'Q'})
+			sc.Tags = append(sc.Tags, "query")
+			nq++
+		}
 	}
 	return sc
 }
